@@ -3,7 +3,9 @@ package schema
 import (
 	"encoding/json"
 	"fmt"
+	"os"
 	"reflect"
+	"strconv"
 	"sort"
 	"strings"
 
@@ -483,6 +485,9 @@ func desc(e *yang.Entry) string {
 // ---- checks -------------------------------------------------------------------------
 
 func designRun(r *core.Run, prop string, cfgs []string, col *core.Collector) {
+	if os.Getenv("VERIF_BONLY") != "" {
+		return
+	}
 	core.CaseSuffix = `,"prop":"` + prop + `"}`
 	for _, cfg := range cfgs {
 		r.DirectionAC("schema", core.TLCOpts{Module: "MCS_" + cfg, Cfg: "MCS_" + cfg + ".cfg", Workers: 12, HeapGB: 16, Timeout: 0}, nil, col)
@@ -503,9 +508,15 @@ func init() {
 
 // directionB: random programs judged by SchemaProgTrace (and their heaps by SchemaTrace when heap is set).
 func directionB(r *core.Run, prop string, heap bool) {
-	n := 40
+	n := 60
 	if r.Tier == "thorough" {
-		n = 600
+		n = 800
+	}
+	if v, err := strconv.Atoi(os.Getenv("VERIF_BN")); err == nil && v > 0 {
+		n = v // development: a larger sample
+	}
+	if os.Getenv("VERIF_BONLY") != "" {
+		r.Infra("development run: direction B only")
 	}
 	col := core.NewCollector()
 	core.SubmitCollect(r, "schema", 'B', n, col)
@@ -557,6 +568,7 @@ func init() {
 		r.Exhaustive = true
 		r.Assumptions = []string{"starts at rpc input/output that Find creates on demand are covered by C04"}
 		designRun(r, "C17", tierCfgs(r, []string{"aug_quick", "aug_late", "uses_quick", "aug_pair", "split"}, []string{"uses", "cfg", "aug_sub"}), nil)
+		directionB(r, "C17", false)
 	}
 }
 
@@ -646,6 +658,7 @@ func init() {
 		r.Exhaustive = true
 		r.Assumptions = []string{"must / unique deviations, delete default on a leaf-list, replace default where none exists, delete of an implicit element bound are outside the claim (DESIGN.md D.1)"}
 		designRun(r, "C08", tierCfgs(r, []string{"dev1", "dev2", "dev3", "dev_triples"}, nil), nil)
+		directionB(r, "C08", false)
 		SessionHistories(r, "C08", "dv")
 	}
 }
